@@ -139,6 +139,9 @@ pub enum Family {
     DistinctNames,
     /// n members with distinct names inside one collection
     DistinctMembers,
+    /// ONE name of 8n octets (at most 65 535) carrying n values: an attribute (member = false) or a collection member
+    /// (member = true). Cost that is proportional to name length x number of values shows as quadratic.
+    LongNameManyValues { member: bool },
 }
 
 impl Family {
@@ -148,6 +151,7 @@ impl Family {
             Family::ValueLen { tag } => format!("value[{:#04x}] of n octets", tag),
             Family::DistinctNames => "n attributes with distinct names".into(),
             Family::DistinctMembers => "collection with n distinct members".into(),
+            Family::LongNameManyValues { member } => format!("one {} with a name of 8n octets and n values", if *member { "collection member" } else { "attribute" }),
         }
     }
     pub fn to_json(&self) -> Json {
@@ -156,6 +160,7 @@ impl Family {
             Family::ValueLen { tag } => json!({"value_tag": tag}),
             Family::DistinctNames => json!("distinct-names"),
             Family::DistinctMembers => json!("distinct-members"),
+            Family::LongNameManyValues { member } => json!({"long_name_many_values": member}),
         }
     }
     pub fn from_json(j: &Json) -> Option<Family> {
@@ -164,6 +169,9 @@ impl Family {
         }
         if j.as_str() == Some("distinct-members") {
             return Some(Family::DistinctMembers);
+        }
+        if let Some(m) = j.get("long_name_many_values") {
+            return Some(Family::LongNameManyValues { member: m.as_bool()? });
         }
         if let Some(t) = j.get("value_tag") {
             return Some(Family::ValueLen { tag: t.as_u64()? as u8 });
@@ -210,6 +218,29 @@ impl Family {
                 }
                 b.extend_from_slice(&[0x37, 0, 0, 0, 0, 3]);
             }
+            Family::LongNameManyValues { member } => {
+                let name_len = (8 * n).min(65535);
+                b.push(1);
+                if *member {
+                    b.extend_from_slice(&[0x34, 0, 1, b'c', 0, 0]);
+                    b.extend_from_slice(&[0x4a, 0, 0]);
+                    b.extend_from_slice(&(name_len as u16).to_be_bytes());
+                    b.extend(std::iter::repeat(b'n').take(name_len));
+                    for _ in 0..n {
+                        b.extend_from_slice(&[0x21, 0, 0, 0, 4, 0, 0, 0, 1]);
+                    }
+                    b.extend_from_slice(&[0x37, 0, 0, 0, 0]);
+                } else {
+                    b.push(0x21);
+                    b.extend_from_slice(&(name_len as u16).to_be_bytes());
+                    b.extend(std::iter::repeat(b'n').take(name_len));
+                    b.extend_from_slice(&[0, 4, 0, 0, 0, 1]);
+                    for _ in 1..n {
+                        b.extend_from_slice(&[0x21, 0, 0, 0, 4, 0, 0, 0, 1]);
+                    }
+                }
+                b.push(3);
+            }
         }
         b
     }
@@ -241,6 +272,8 @@ pub fn families(tier: Tier) -> Vec<Family> {
     }
     out.push(Family::DistinctNames);
     out.push(Family::DistinctMembers);
+    out.push(Family::LongNameManyValues { member: false });
+    out.push(Family::LongNameManyValues { member: true });
     out
 }
 
@@ -440,6 +473,8 @@ pub fn run(ctx: &Ctx) -> ! {
         per(&[5], &[7], &[], &[0]),      // one wide set closed by a group switch
         Family::DistinctNames,
         Family::DistinctMembers,
+        Family::LongNameManyValues { member: false },
+        Family::LongNameManyValues { member: true },
     ];
     for d in &danger {
         if let Some(i) = fams.iter().position(|f| f == d) {
